@@ -266,56 +266,83 @@ def r66(facts, res):
         return
     b = eqs[0]
     rp = facts.adt(CP + 'Repair')
-    del_d = [v['discr'] for v in rp['variants'] if v['name'] == 'Delete'][0]
+    rdis = {v['name']: v['discr'] for v in rp['variants']}
+    # finite-model comparison: every abstract model consistent with a path's branch literals must agree with
+    #   eq <=> same index and same stack and not(exactly one side ends in Delete) and equal trailing-shift counts
+    import itertools
+    lasts = [None] + sorted(rdis)
+    models = [dict(la=la, ps=ps, s=s_, o=o_) for la in (0, 1) for ps in (0, 1) for s_ in lasts for o_ in lasts]
+
+    class Unknown(Exception):
+        pass
+
+    def side(t):
+        if term_has(t, lambda x: x == ('param', 1)):
+            return 's'
+        if term_has(t, lambda x: x == ('param', 2)):
+            return 'o'
+        raise Unknown()
+
+    def ev(c, m):
+        if c[0] == 'bin' and c[1] in ('Eq', 'Ne'):
+            for f, k in (('laidx', 'la'), ('pstack', 'ps')):
+                if term_has(c, lambda x: isinstance(x, tuple) and len(x) > 3 and x[0] == 'field' and x[3] == f):
+                    return int(m[k] == 1) if c[1] == 'Eq' else int(m[k] != 1)
+            raise Unknown()
+        if c[0] == 'discr' and has_call(c, 'last_repair'):
+            inner = c[1]
+            sd = side(inner)
+            if inner[0] == 'call':
+                return int(m[sd] is not None)
+            if term_has(inner, lambda x: isinstance(x, tuple) and x[0] == 'downcast'):
+                if m[sd] is None:
+                    raise Unknown()  # payload of a None: path infeasible for this model
+                return rdis[m[sd]]
+        raise Unknown()
+
     bad = []
     n = 0
+    covered = set()
     for p in Walker(b, facts, max_paths=512).run():
         if p.end[0] != 'return':
             continue
         n += 1
         ret = p.end[1]
-        fld = {}
-        for cd, v in p.conds:
-            if cd[0] == 'bin' and cd[1] in ('Eq', 'Ne'):
-                for f in ('laidx', 'pstack'):
-                    if term_has(cd, lambda x: isinstance(x, tuple) and len(x) > 3 and x[0] == 'field' and x[3] == f):
-                        fld[f] = (v == 1) if cd[1] == 'Eq' else (v == 0)
-        if False in fld.values():
-            if ret != ('const', 0):
-                bad.append('nodes with different %s compare equal' % [k for k, v in fld.items() if v is False])
-            continue
-        dl = {}
-        for cd, v in p.conds:
-            if cd[0] == 'discr' and has_call(cd, 'last_repair'):
-                who = 'self' if term_has(cd, lambda x: x == ('param', 1)) else 'other'
-                if cd[1][0] == 'call' or (cd[1][0] == 'field' and cd[1][1][0] == 'tuple'):
-                    pass
-                # discriminant of the Option, then of the payload
-                if cd[1][0] in ('field',) and cd[1][1][0] == 'downcast' or cd[1][0] == 'field' and isinstance(cd[1][2], int) and False:
-                    pass
-                dl.setdefault(who, []).append((cd, v))
-        # decide "ends in delete" per side from the payload discriminant conditions
-        ends = {}
-        for who, lst in dl.items():
-            for cd, v in lst:
-                inner = cd[1]
-                if term_has(inner, lambda x: isinstance(x, tuple) and x[0] == 'downcast'):
-                    ends[who] = (v == del_d) if isinstance(v, int) else False
-                else:
-                    if v == 0:
-                        ends[who] = False
-        if ends.get('self') is not None and ends.get('other') is not None and ends['self'] != ends['other']:
-            if ret != ('const', 0):
-                bad.append('nodes where exactly one sequence ends in Delete compare equal')
-            continue
-        if ret[0] == 'bin' and ret[1] == 'Eq':
-            continue
-        if ret == ('const', 0) and False not in fld.values() and (ends.get('self') == ends.get('other')):
-            bad.append('compatible nodes compare unequal without comparing trailing shift counts')
+        for i, m in enumerate(models):
+            sat = True
+            for c, v in p.conds:
+                try:
+                    x = ev(c, m)
+                except Unknown:
+                    if c[0] == 'discr' and has_call(c, 'last_repair') and term_has(c[1], lambda x: isinstance(x, tuple) and x[0] == 'downcast'):
+                        sat = False  # examines the payload of a side that is None in this model
+                        break
+                    continue
+                if isinstance(v, int):
+                    if x != v:
+                        sat = False
+                        break
+                elif isinstance(v, tuple) and v[0] == 'ne' and x in v[1]:
+                    sat = False
+                    break
+            if not sat:
+                continue
+            covered.add(i)
+            must_false = (m['la'] != 1) or (m['ps'] != 1) or ((m['s'] == 'Delete') != (m['o'] == 'Delete'))
+            if must_false:
+                if ret != ('const', 0):
+                    bad.append('nodes with %s compare as possibly equal' % (
+                        'different input index' if m['la'] != 1 else 'different stacks' if m['ps'] != 1 else
+                        'exactly one repair sequence ending in Delete (self ends in %s, other in %s)' % (m['s'], m['o'])))
+            else:
+                if not (ret[0] == 'bin' and ret[1] == 'Eq'):
+                    bad.append('compatible nodes (self ends in %s, other in %s) are not compared by their trailing-shift counts' % (m['s'], m['o']))
+    if len(covered) != len(models):
+        bad.append('%d of %d abstract cases are covered by no path' % (len(models) - len(covered), len(models)))
     if not bad and n >= 4:
-        res.ok(R, 'node-eq', loc_of(b), 'unequal index/stack -> false; exactly one side ends in Delete -> false; else equality of trailing-shift counts (%d paths)' % n)
+        res.ok(R, 'node-eq', loc_of(b), 'unequal index/stack -> false; exactly one side ends in Delete -> false; else equality of trailing-shift counts (%d abstract cases over %d paths)' % (len(models), n))
     else:
-        res.bad(R, 'node-eq', loc_of(b), '; '.join(sorted(set(bad))) or 'could not read PathFNode::eq')
+        res.bad(R, 'node-eq', loc_of(b), '; '.join(sorted(set(bad))[:3]) or 'could not read PathFNode::eq')
     h = hs[0]
     read = set()
     for bb, i, st in h.stmts():
